@@ -59,6 +59,17 @@ pub proof fn end_of_input_binds_nothing()
 #[verifier::external_body]
 fn verif_panic() -> (r: Precedence) requires false { unimplemented!() }
 
+// ------------------------------------------------------------------ the parser's recursion, by call sites
+// The termination argument below models every statement parser except if_statement as "recurses only through block() /
+// parse_precedence()". That is a frame condition on compiler.rs, decided from the call sites as they stand on this run:
+//@callsites file=yarel/src/compiler.rs impl=Parser callee=statement allowed=declaration,if_statement
+//@callsites file=yarel/src/compiler.rs impl=Parser callee=declaration allowed=block,parse
+//@callsites file=yarel/src/compiler.rs impl=Parser callee=if_statement allowed=statement
+//@lemma name=statement_level_recursion_enters_only_where_it_is_counted props=C03
+pub proof fn statement_level_recursion_enters_only_where_it_is_counted()
+    ensures UNEXPECTED_CALLERS_OF_STATEMENT == 0, UNEXPECTED_CALLERS_OF_DECLARATION == 0, UNEXPECTED_CALLERS_OF_IF_STATEMENT == 0
+{}
+
 pub struct Token { pub kind: TokenKind }
 #[verifier::external_body]
 #[verifier::accept_recursive_types(T)]
@@ -245,6 +256,27 @@ impl Parser {
         ensures final(self).stream_ok(), final(self).tokens_left <= old(self).tokens_left, final(self).nesting == old(self).nesting, final(self).single_target_mode == old(self).single_target_mode
     { unimplemented!() }
 
+    #[verifier::external_body]
+    fn emit_jump(&mut self, instruction: OpCode) -> usize
+        ensures final(self).stream_ok() == old(self).stream_ok(), final(self).tokens_left == old(self).tokens_left, final(self).current == old(self).current, final(self).nesting == old(self).nesting, final(self).single_target_mode == old(self).single_target_mode
+    { unimplemented!() }
+    #[verifier::external_body]
+    fn patch_jump(&mut self, offset: usize)
+        ensures final(self).stream_ok() == old(self).stream_ok(), final(self).tokens_left == old(self).tokens_left, final(self).current == old(self).current, final(self).nesting == old(self).nesting, final(self).single_target_mode == old(self).single_target_mode
+    { unimplemented!() }
+    #[verifier::external_body]
+    fn check_any(&self, kinds: &[TokenKind]) -> bool { unimplemented!() }
+
+    // if / else if / else: the one statement parser that re-enters statement() without entering a block — the
+    // `else` branch is counted as a nesting level (fix 9f9c840)
+    //@fn file=yarel/src/compiler.rs path=Parser::if_statement
+    //@  rewrite R21
+    //@  requires old(self).stream_ok(), old(self).nesting <= NESTING_MAX
+    //@  decreases NESTING_MAX + 1 - old(self).nesting, 2int
+    //@  ensures final(self).stream_ok(), final(self).tokens_left <= old(self).tokens_left
+    //@  ensures @the_nesting_count_is_restored final(self).nesting == old(self).nesting
+    //@end
+
     // Progress (C03: compilation terminates): a statement / declaration consumes at least one token unless the input is
     // exhausted — every branch either matched (and consumed) its keyword or parses an expression, which consumes.
     //@fn file=yarel/src/compiler.rs path=Parser::expression_statement
@@ -256,7 +288,6 @@ impl Parser {
     //@fn file=yarel/src/compiler.rs path=Parser::statement
     //@  subst "self.import_statement();" => "self.nested_statement_parser();"
     //@  subst "self.for_statement();" => "self.nested_statement_parser();"
-    //@  subst "self.if_statement();" => "self.nested_statement_parser();"
     //@  subst "self.return_statement();" => "self.nested_statement_parser();"
     //@  subst "self.break_statement();" => "self.nested_statement_parser();"
     //@  subst "self.continue_statement();" => "self.nested_statement_parser();"
@@ -264,7 +295,7 @@ impl Parser {
     //@  subst "self.try_statement();" => "self.nested_statement_parser();"
     //@  subst "self.while_statement();" => "self.nested_statement_parser();"
     //@  requires old(self).stream_ok(), old(self).nesting <= NESTING_MAX
-    //@  decreases NESTING_MAX + 1 - old(self).nesting, 2int
+    //@  decreases NESTING_MAX + 1 - old(self).nesting, 3int
     //@  ensures final(self).stream_ok(), final(self).tokens_left <= old(self).tokens_left, final(self).nesting == old(self).nesting
     //@  ensures @a_statement_consumes_input old(self).tokens_left > 0 ==> final(self).tokens_left < old(self).tokens_left
     //@  at body.start proof { assert(old(self).tokens_left > 0 ==> !(old(self).current.kind is Eof)); }
@@ -276,7 +307,7 @@ impl Parser {
     //@  subst "self.var_declaration();" => "self.nested_statement_parser();"
     //@  subst "self.panic_mode.get()" => "self.in_panic_mode()"
     //@  requires old(self).stream_ok(), old(self).nesting <= NESTING_MAX
-    //@  decreases NESTING_MAX + 1 - old(self).nesting, 3int
+    //@  decreases NESTING_MAX + 1 - old(self).nesting, 4int
     //@  ensures final(self).stream_ok(), final(self).tokens_left <= old(self).tokens_left, final(self).nesting == old(self).nesting
     //@  ensures @a_declaration_consumes_input old(self).tokens_left > 0 ==> final(self).tokens_left < old(self).tokens_left
     //@end
